@@ -10,6 +10,20 @@ from sym import SymVal, G, TRUE, g_and, g_or, lift, smap, sym_true_cond, Infeasi
 sys.setrecursionlimit(100000)
 
 
+def _int_consts(e, acc=None, seen=None):
+    """names of the uninterpreted Int constants of a z3 expression"""
+    acc = set() if acc is None else acc
+    seen = set() if seen is None else seen
+    if e.get_id() in seen:
+        return acc
+    seen.add(e.get_id())
+    if z3.is_const(e) and e.decl().kind() == z3.Z3_OP_UNINTERPRETED and z3.is_int(e):
+        acc.add(e.decl().name())
+    for c in e.children():
+        _int_consts(c, acc, seen)
+    return acc
+
+
 class Panic(Exception):
     def __init__(self, kind, where=''):
         Exception.__init__(self, kind)
@@ -508,6 +522,15 @@ class Machine:
             if name in self.dep_selectors and name not in self.dep_counted and 0 not in self.allowed[name]:
                 self.dep_counted.add(name)
                 self.departures += 1
+        elif self.dep_selectors and self.departure_budget is not None:
+            # a condition over several retargeting selectors (e.g. two symbolic names compared with each other): ask the solver
+            # which of them the path now forces away from the original value, and keep the cardinality bound
+            for name in _int_consts(cond):
+                if name in self.dep_selectors and name not in self.dep_counted and not self._check(self.dep_selectors[name] == 0):
+                    self.dep_counted.add(name)
+                    self.departures += 1
+            if self.departures > self.departure_budget:
+                raise Infeasible()
         return d
 
     def truth(self, v):
